@@ -215,6 +215,17 @@ class LocationAction(object):
             return True
         return False
 
+    def keep_stats_of(self, other: 'LocationAction'):
+        """
+        Carry on with the fire count and last fire time of another action.
+
+        When the service sends a new config in which this tracepoint is unchanged, the tracepoint stays installed:
+        the action that is built from the new config carries on where the one it replaces stands.
+
+        :param other: the action (of the same tracepoint) that this one replaces
+        """
+        self.__stats = other.__stats
+
     def with_location(self, location: 'Location') -> 'LocationAction':
         """
         Attach the location to this action.
